@@ -169,7 +169,22 @@ let spec input obs_s =
                 fail "wrong-stop-hash" (Printf.sprintf "%s: stop %d while next checkpoint height is %d" e.label stop (next_of e.state))) gs;
           (* the caveat of the statement: a reply that was ingested, brought something new, and left the tip where it was *)
           if Stdlib.List.exists (fun i -> fresh i && Hashtbl.mem stored_final i) e.batch && not (has_prefix_eff "X" p e.effs)
-             && tip_of e.state = tip_of !prev_state then caveat := true;
+             && tip_of e.state = tip_of !prev_state then begin
+            (* ... which excuses only if ONE reply of the sender's reply cap, starting after the point where its chain leaves
+               what the store has, would not have overtaken the tip either (the statement: "adopted when one reply suffices") *)
+            let work_of i = (match Hashtbl.find_opt u i with Some (sr : Store.src) -> zt_of_z (Work.calc_work sr.Store.s_pl.Store.p_bits) | None -> Z.zero) in
+            let rec tree_cum n i = if n > 100000 || i = int_of_n sc.hist.gid then zt_of_z (Work.calc_work sc.hist.gpl.Store.p_bits)
+              else Z.add (work_of i) (tree_cum (n + 1) (parent_of i)) in
+            let tipcum = tree_cum 0 (tip_of !prev_state) in
+            let suffices = (match Stdlib.List.find_opt (fun n -> n.np = p) sc.nodes with
+                | Some n ->
+                  let chain = n.nchain @ n.nreserve in
+                  let rec from_first = function [] -> [] | (i :: _) as l when fresh i -> l | _ :: r -> from_first r in
+                  let rec take k = function [] -> [] | x :: r -> if k <= 0 then [] else x :: take (k - 1) r in
+                  Stdlib.List.exists (fun i -> th i <> None && Z.gt (tree_cum 0 i) tipcum) (take n.ncap (from_first chain))
+                | None -> false) in
+            if not suffices then caveat := true
+          end;
           if active then Stdlib.List.iter (fun i -> Hashtbl.replace connected i ()) ingested;
           Stdlib.List.iter (fun i -> Hashtbl.replace known i ()) e.batch
         end;
